@@ -72,7 +72,7 @@ class Gen:
             return ("decsuf", n, w, self.suffix(first_not_e=(w == b'' and n[4] is None)))
         if k == 'nondec':
             rr = r.choice('HhQqBb'); base = {'h': 16, 'q': 8, 'b': 2}[rr.lower()]
-            n = r.randint(1, 16 if base == 16 else (21 if base == 8 else 64))
+            n = r.randint(1, 16 if base == 16 else (22 if base == 8 else 64))
             alphabet = '0123456789abcdefABCDEF' if base == 16 else '0123456789'[:base]
             ds = ''.join(r.choice(alphabet) for _ in range(n))
             if int(ds, base) >= 2 ** 64: ds = '1'
